@@ -13,7 +13,7 @@ pub fn prop() -> Prop {
     Prop {
         id: "C13",
         level: "model_checking",
-        rule: "(a) every alias of every function against the canonical name on every documented example and on every argument tuple (arity <=3) over 6 atoms of all types; (b) 48 expressions (a third reading :v, @m, a selected name or ^ after --split-by) as --select (first and later), --filter, --sort-by (both directions), --group-by, --split-by, --set macro and --set variable, the late positions also behind another --select over all sequences of <=3 (thorough <=5) values over 5 records, and over 700 records for the expressions reading variables and macros; (c) 40 expressions, and 22 big ones (nesting depth 9..65, 9..130 arguments, literals and names of 31..300 characters), in 14 spellings (separators blank, comma, comma-blank, two blanks, tab, newline; padding before the closing parenthesis; leading-dot sugar; a comma directly after a variable, macro, key, number, string) (d) --regular-expression-cache-size in {0,1,2,64} x all sequences of <=2 (thorough <=3) (subject, pattern) pairs over 4 subjects x 6 patterns and of <=4 (thorough <=6) over a 12-pair core (one invalid pattern; two pairs whose pattern+subject texts glue to the same string) through match and extract_regex_group, and sequences with 0/1/2/7 more distinct patterns than a cache of 2/3/16/64 holds, each revisited; five big patterns (\\w{30}, \\p{L}{60}, ..) under cache sizes 0/1/3/64; non-trivial = the compared forms differ textually and the value is not nothing; distinct by construction; (e) 12 expressions that use one macro body (given with --set) under different bindings of the names it mentions (define/set around the use, shadowing a --set binding), each alone against the reference evaluator and all ordered pairs (thorough: all triples) as selections of one run; in (b) sort and group positions are also tried next to a second --sort-by that ties every row; 23 patterns covering the constructs of the pattern syntax (counted repetition with braces, lone braces, alternation, anchors, classes, flags, escapes, optional groups, the empty pattern) x 11 subjects x cache sizes 0,1,2,64 against the regex crate, each with a regex call whose subject is the result of another regex call",
+        rule: "(a) every alias of every function against the canonical name on every documented example and on every argument tuple (arity <=3) over 6 atoms of all types; (b) 48 expressions (a third reading :v, @m, a selected name or ^ after --split-by) as --select (first and later), --filter, --sort-by (both directions), --group-by, --split-by, --set macro and --set variable, the late positions also behind another --select over all sequences of <=3 (thorough <=5) values over 5 records, and over 700 records for the expressions reading variables and macros; (c) 40 expressions, and 22 big ones (nesting depth 9..65, 9..130 arguments, literals and names of 31..300 characters), in 14 spellings (separators blank, comma, comma-blank, two blanks, tab, newline; padding before the closing parenthesis; leading-dot sugar; a comma directly after a variable, macro, key, number, string) (d) --regular-expression-cache-size in {0,1,2,64} x all sequences of <=2 (thorough <=3) (subject, pattern) pairs over 4 subjects x 6 patterns and of <=4 (thorough <=6) over a 12-pair core (one invalid pattern; two pairs whose pattern+subject texts glue to the same string) through match and extract_regex_group, and sequences with 0/1/2/7 more distinct patterns than a cache of 2/3/16/64 holds, each revisited; five big patterns (\\w{30}, \\p{L}{60}, ..) under cache sizes 0/1/3/64; non-trivial = the compared forms differ textually and the value is not nothing; distinct by construction; (e) 12 expressions that use one macro body (given with --set) under different bindings of the names it mentions (define/set around the use, shadowing a --set binding), each alone against the reference evaluator and all ordered pairs (thorough: all triples) as selections of one run; in (b) sort and group positions are also tried next to a second --sort-by that ties every row; 27 patterns covering the constructs of the pattern syntax (counted repetition with braces, lone braces, alternation, anchors, classes, flags, escapes, optional groups, the empty pattern) x 15 subjects (some with CR, CR LF, LF) x cache sizes 0,1,2,64 against the regex crate, each with a regex call whose subject is the result of another regex call",
         explanation: "differential inside the implementation (same run, several selections; or the rows kept / ordered / grouped / produced versus the values the same expression has as a selection) and, for the regex cache, against the regex crate called directly",
         assumptions: COMMON_ASSUMPTIONS.to_vec(),
         guards: vec!["pattern-syntax-under-every-cache-size", "one-macro-body-under-two-bindings", "position-next-to-another-sort", "big-patterns", "hundreds-of-rows-in-every-position", "more-patterns-than-the-cache-holds", "alias-with-value", "filter-kept-and-dropped", "sort-reordered", "group-two-keys", "split-produced-rows", "comma-after-variable", "dot-sugar", "cache-eviction", "invalid-pattern", "macro-position", "variable-position"],
@@ -657,8 +657,8 @@ fn cache_threshold_part(ctx: &mut Ctx) {
 /// every construct of the pattern syntax under every cache size (one pattern per run, met twice), and a regex call
 /// whose subject is itself the result of a regex call
 fn pattern_syntax_part(ctx: &mut Ctx) {
-    let patterns = ["a{2}", "xy{2,3}z", "q{", "a{2,}", "{", "}", "a}", "a|b", "^a", "b$", "a.b", "a*", "a?b", "[a-b]+", "(?i)AB", "\\d", "\\.", "\\{", "(a)|(b)", "(x)?(y+)", "ab", "", " "];
-    let subjects = ["caab", "xyyz", "q{", "ab", "a.b", "AB", "7", "}", "a}", "", "a b"];
+    let patterns = ["a{2}", "xy{2,3}z", "q{", "a{2,}", "{", "}", "a}", "a|b", "^a", "b$", "a.b", "a*", "a?b", "[a-b]+", "(?i)AB", "\\d", "\\.", "\\{", "(a)|(b)", "(x)?(y+)", "ab", "", " ", "(?m)^b$", "(?s)a.b", "a.+b", "a$"];
+    let subjects = ["caab", "xyyz", "q{", "ab", "a.b", "AB", "7", "}", "a}", "", "a b", "a\rb", "a\r\nb", "a\nb", "a\r"];
     for (pi, pt) in patterns.iter().enumerate() {
         if !ctx.mine() {
             continue;
@@ -711,7 +711,7 @@ fn pattern_syntax_part(ctx: &mut Ctx) {
             }
         }
     }
-    ctx.level_done("d:pattern-syntax(23-patterns-x-11-subjects-x-4-cache-sizes,nested-call)");
+    ctx.level_done("d:pattern-syntax(27-patterns-x-15-subjects-x-4-cache-sizes,nested-call)");
 }
 
 fn to_text_obj(s: &str, p: &str) -> String {
